@@ -531,7 +531,47 @@ def confirm_hangs(ctx, cs, res):
         res[i] = r2
 
 
+def schema_model_cases(ctx):
+    """schema.ParseResolve against its model (Resolve/SchemaResolve.v composed with the Canon model of C13): the same
+    graph texts as the totality stream, plain, byte-mutated and with tree-art indentation, compared on the whole
+    canonical graph (nodes with their errors, edges with requirement and dependency type, free errors) or the refusal."""
+    rng = ctx.rng
+    args = []
+    for _ in range(ctx.scale(600, 20000)):
+        gt = graph_text(rng)
+        q = rng.random()
+        if q < 0.25:
+            gt = byte_mutate(rng, gt, 3)
+        elif q < 0.35:
+            # tree-art indentation in place of some tabs (replaceArt), and blanks around the lines (TrimSpace)
+            art = [b"   ", b"\xe2\x94\x9c\xe2\x94\x80 ", b"\xe2\x94\x82  ", b"\xe2\x94\x94\xe2\x94\x80 "]
+            rows = []
+            for ln in gt.split(b"\n"):
+                n = len(ln) - len(ln.lstrip(b"\t"))
+                ln = b"".join(rng.choice(art + [b"\t"]) for _ in range(n)) + ln[n:]
+                if rng.random() < 0.2:
+                    ln += rng.choice([b" ", b"\r", b"\xc2\xa0", b"\xe2\x80\xa8", b"\t"])
+                rows.append(ln)
+            gt = b"\n".join(rows)
+        elif q < 0.5:
+            # token soup: every separator the parser looks for, in any order
+            toks = [b"$", b"@", b": ", b" ERROR: ", b"ERROR:", b"|", b" ", b"\t", b"\n", b"\n", b"\n\t", b"a", b"x", b"1", b"#", b"   ",
+                    b"\xe2\x94\x9c\xe2\x94\x80 ", b"\xe2\x94\x82  ", b"dev", b"opt", b"\xc2\xa0", b":", b"x: ", b"$x@", b"a@1 1"]
+            gt = b"".join(rng.choice(toks) for _ in range(rng.randrange(1, 14)))
+        args.append(sx([rng.randrange(4), gt]))
+    # the nested label-reference / error rows of the seeded defect (scratch slice sized by the deepest node)
+    args.append(sx([1, b"a 1\n\tx: b@1 1\n\t\t$x@1\n\t\t\t$x@2"]))
+    args.append(sx([1, b"a 1\n\tb@1 ERROR: e\n\t\tc@1 ERROR: f\n\t\t\tc@2 ERROR: g"]))
+    impl, model = ctx.correspond("parseresolve_model", args)
+    for x, y in zip(impl, model):
+        if '"oom"' in y:
+            ctx.count("parseresolve_model:outside-model")
+        else:
+            ctx.count("parseresolve_model:" + ("accepted" if x.startswith('("ok"') else "rejected" if x.startswith('("err"') else "other"))
+
+
 def run(ctx):
+    schema_model_cases(ctx)
     cs = cases(ctx)
     res = run_total(ctx, cs)
     confirm_hangs(ctx, cs, res)
